@@ -436,6 +436,7 @@ func (st *e2State) analyse(fn *Func) {
 				if st.final {
 					st.nClassA++
 					st.r.Add("E2.append-then-sort", fn.Name, pathName(src.path), p.Pos(e.node), OK, src.why+"; sorted before it escapes", true)
+					st.judgeStability(fn, src)
 				}
 			default:
 				if st.final {
@@ -1119,4 +1120,47 @@ var e2Exceptions = map[string]string{}
 // engine still carries their "unordered" summary to every in-module caller.
 var e2NotAnEntry = map[string]string{
 	"schema.(*BodySchema).ToHCLSchema": "builds the schema lists hcl consumes as sets (attributes are looked up by name). One order-sensitive effect is NOT decided here: hcl's JSON body groups the returned blocks by type in the order of this list (source order within a type), so ast.DecodeBody(json).Blocks has map order across block types; the in-module consumers were reviewed (they sort, group by type, or filter one type) — recorded under not_decided",
+}
+
+// stableSortExceptions: unstable sorts of map-ordered input whose comparator cannot tie,
+// keyed function|slice. One line of reason each (reviewed).
+var stableSortExceptions = map[string]string{
+	"decoder.(*PathDecoder).SemanticTokensInFile|tokens": "ordered by start byte; tokens of one file are pairwise disjoint and non-empty (the C13 clause this sort serves, decided by the C13 rules), so two tokens never start at the same byte",
+	"schema.NestedTargetablesForValue|nestedTargetables": "ordered by address; the elements are built one per key of a single Go map (attribute names of an object type / keys of a map value) or one per list index, so the addresses are pairwise different",
+}
+
+// judgeStability — E2.stable-sort: the sort that puts a map-ordered slice into its final order
+// must leave nothing to the input permutation. A stable sort does (ties keep the order in
+// which one iteration appended them); sort.Strings / sort.Ints do (equal elements are
+// indistinguishable); an unstable sort.Sort / sort.Slice does only if its comparator never
+// ties, which is a fact about the data and has to be stated per site.
+func (st *e2State) judgeStability(fn *Func, src taintSrc) {
+	info := fn.Info()
+	p := st.p
+	seen := map[*ast.CallExpr]bool{}
+	ast.Inspect(fn.Body, func(n ast.Node) bool {
+		call, ok := n.(*ast.CallExpr)
+		if !ok || seen[call] || !st.sortsPath(info, call, src.path) {
+			return true
+		}
+		seen[call] = true
+		full := calleeFull(info, call)
+		key := pathName(src.path) + " by " + full
+		switch full {
+		case "sort.Stable", "sort.SliceStable", "slices.SortStableFunc":
+			st.r.Add("E2.stable-sort", fn.Name, key, p.Pos(call), OK, "stable: equal keys keep the order in which they were appended", true)
+		case "sort.Strings", "sort.Ints", "sort.Float64s", "slices.Sort":
+			st.r.Add("E2.stable-sort", fn.Name, key, p.Pos(call), OK, "elements that compare equal are identical", true)
+		case "sort.Sort", "sort.Slice", "slices.SortFunc":
+			if ex := stableSortExceptions[fn.Name+"|"+pathName(src.path)]; ex != "" {
+				st.r.Add("E2.stable-sort", fn.Name, key, p.Pos(call), Excepted, ex, true)
+			} else {
+				st.r.Add("E2.stable-sort", fn.Name, key, p.Pos(call), Violated,
+					"the slice is in map iteration order ("+src.why+") and is put in order by an unstable sort: elements whose keys compare equal come out in an order that depends on the input permutation, i.e. on map iteration order", true)
+			}
+		default:
+			// a module method that sorts its receiver in place: judged where it sorts
+		}
+		return true
+	})
 }
